@@ -15,8 +15,18 @@ func ZZHarnessSubnetOfKey() {
 	for i := range pk {
 		pk[i] = byte(0x3c + 7*i)
 	}
-	for i := 5 - int(zzParam("NSYM")); i < 5; i++ {
-		pk[i] = zzNondetByte("pk")
+	if zzParam("LEAD") == 1 {
+		// the low end of the value range: the leading NSYM of the five relevant bytes symbolic, the rest zero
+		for i := 0; i < 5; i++ {
+			pk[i] = 0
+		}
+		for i := 0; i < int(zzParam("NSYM")); i++ {
+			pk[i] = zzNondetByte("pk")
+		}
+	} else {
+		for i := 5 - int(zzParam("NSYM")); i < 5; i++ {
+			pk[i] = zzNondetByte("pk")
+		}
 	}
 	sn := ValidatorSubnet(hex.EncodeToString(pk))
 	zzAssert(sn == int(pk[4]&0x7f), "subnet-is-low-7-bits-of-byte-4")
